@@ -8,7 +8,7 @@ COMMON = [
 
 LFO_RULE = ("exhaustive sweep of all 2^24 phase-counter values (increment 1, across the wrap), whole-cycle sweeps at 9 larger increments, "
             "directed set_phase/reset/set_frequency scenarios at 28 sample rates, closed-loop landings (the frequency is set from the counter read back so that the next tick lands exactly on 0, 2^24-1, the half cycle, table-cell boundaries and their neighbours), "
-            "seeded random histories incl. frequency nudges of a few ulps, re-quantised frequencies and (C10/C12 only) frequencies above the sample rate; every tick reads all 5 waveshapes. "
+            "seeded random histories incl. frequency nudges of a few ulps, re-quantised frequencies and (C10/C12 only) frequencies above the sample rate; every tick reads all 5 waveshapes; C12 bounds each sine step by the smaller of the observed and the commanded phase step; C10 also runs observation twins (getters read after every call on one instance, only at sparse checkpoints on the other: bit-identical there). "
             "distinct_nontrivial = distinct (sine-table cell, increment magnitude class) pairs observed")
 
 META = {
@@ -17,11 +17,11 @@ META = {
     "C12": {"rule": LFO_RULE, "assumptions": COMMON + ["ulp in the sine bound is taken at magnitude 1 (2^-23)"]},
 }
 
-ADSR_RULE = ("directed scenarios (17 (fs,T) pairs incl. T*fs<=1, =1, just above 1; gate events at every offset class of every phase; sustain and times moved in mid-phase), "
+ADSR_RULE = ("(C01 also: observation twins - value() read after every call on one instance, only at sparse checkpoints on the other) directed scenarios (17 (fs,T) pairs incl. T*fs<=1, =1, just above 1; gate events at every offset class of every phase; sustain and times moved in mid-phase), "
              "seeded random histories (whole cycles, retrigger/release storms, parameter modulation, sub-sample phases, gate floods) at 32 standard and log-uniform sample rates, slow phases ticked through completely (up to 20 s at 192 kHz), "
              "long-count histories (7*10^4 gate cycles, 2^16 and 2^24 ticks on the plateaus) and write storms (2^8 ... 2^32 set_input writes between two ticks of a running phase); "
              "every tick is observed through value() and the verif-hooks accessors. distinct_nontrivial = distinct (event kind, phase before, phase after / table-cell octile, decade of T*fs, start-level octile) classes observed")
-MIDI_RULE = ("byte-at-a-time histories on the real receiver compared after every byte with an independent MIDI 1.0 framer + receiver specification; "
+MIDI_RULE = ("byte-at-a-time histories on the real receiver compared after every byte with an independent MIDI 1.0 framer + receiver specification; observation twins (C04/C06/C18: all getters read after every byte on one instance, only at sparse checkpoints on the other - bit-identical at the checkpoints); "
              "distinct_nontrivial = distinct (reference decoder state x byte class), (message effect x held-count bucket x priority x retrigger) and (poll kind x latch x gate) classes observed")
 
 META.update({
@@ -39,22 +39,22 @@ QUANT_RULE = ("allow/forbid/convert histories on the real quantizer with a shado
               "distinct_nontrivial = distinct (octave, path {kept by window, outside window, cached note forbidden, no history}, pitch class, scale-size bucket) classes observed")
 GLIDE_RULE = ("set_time/process histories on the real processor: clean steps over the (fs,t) plane (both signs, offsets), dead-band sequences (drift chains, flapping, jumps, around the band edge) with the pole estimated from the outputs after every call, "
               "and mixed piecewise-constant / noise inputs at signal scales from 1e-30 to 3e38 with set_time changes at arbitrary points incl. switches to <= 4/fs in mid-glide, A-B-A' schedules without a sample in between, glides frozen by feeding the output back, full-scale swings, 7*10^4 set_time calls; distinct_nontrivial = distinct (decade of t*fs, changed-mid-glide?, specified region?) and (plane cell) classes observed")
-RIBBON_RULE = ("sample histories on real controllers (592 sample rates instantiated: every multiple of 500 Hz up to 286 kHz + audio rates; quick: the 10 standard ones, all <= 20 kHz and 12 sampled others; thorough: all) and random resistor triples: presses of length L-2..L+2, 10L, taps shorter than L separated by 1..3 out-of-range samples, glitches, samples exactly on the boundary, slides and noisy presses, one creeping press of 4*10^5 samples, 7*10^4 presses, one contact of 2^24 (thorough: 2^31, 2^32) samples, "
-               "edge polls strict (after every sample) and sparse; distinct_nontrivial = distinct (event, rate, previous-run-length bucket, poll mode) and influence-probe (rate, region, wrapped?, noisy?) classes observed")
+RIBBON_RULE = ("sample histories on real controllers (592 sample rates instantiated: every multiple of 500 Hz up to 286 kHz + audio rates; quick: the 10 standard ones, all <= 20 kHz and 12 sampled others; thorough: all) and random resistor triples: presses of length L-2..L+2, 10L, taps shorter than L separated by 1..3 out-of-range samples, glitches, samples exactly on the boundary and 1-3 ulps below it, pull-ups from the divider resistance up to 10^12 Ohm, non-integer sample rates (buffer sized for the integer part), presses held at the top of the range at every selected rate, slides and noisy presses, one creeping press of 4*10^5 samples, 7*10^4 presses, one contact of 2^24 (thorough: 2^31, 2^32) samples, "
+               "edge polls strict (after every sample) and sparse, observation twins (getters read after every sample vs only at sparse checkpoints); distinct_nontrivial = distinct (event, rate, previous-run-length bucket, poll mode) and influence-probe (rate, region, wrapped?, noisy?) classes observed")
 
 META.update({
     "C07": {"rule": QUANT_RULE, "assumptions": COMMON + ["the shadow scale is maintained from the allow/forbid calls issued (note arguments > 11 act as 11; a forbid that would empty the scale keeps the last note of its argument) and compared with is_allowed() after every edit"]},
-    "C08": {"rule": "fresh real quantizer per conversion (scale set up by forbidding the complement, and by four other edit routes: forbid-everything fallback, one call per note, calls naming a note twice): all 4095 non-empty scales x {boundary grid of every half- and third-semitone point of 0..10 V +-{0,1,4,9,11,40} uV; special and out-of-range inputs incl. NaN/inf; a microvolt stride (quick: 997 uV seed-offset stride, thorough: every one of the 10,000,001 microvolt inputs)}; oracle = nearest allowed note in f64 with the one-semitone-below bucket rule and 10 uV tie band, plus monotonicity over rising inputs. distinct_nontrivial = distinct (scale, number of distinct notes reported) pairs",
+    "C08": {"rule": "fresh real quantizer per conversion (scale set up by forbidding the complement, and by four other edit routes: forbid-everything fallback, one call per note, calls naming a note twice): all 4095 non-empty scales x {boundary grid of every half- and third-semitone point of 0..10 V +-{0,1,4,9,11,40} uV; special and out-of-range inputs incl. NaN/inf; a microvolt stride (quick: 997 uV seed-offset stride, thorough: every one of the 10,000,001 microvolt inputs)}; oracle = nearest allowed note in f64 with the one-semitone-below bucket rule and 10 uV tie band, plus monotonicity over rising inputs; the first conversion after every scale edit inside the convert/edit histories of C07/C09 is judged by the same oracle. distinct_nontrivial = distinct (scale, number of distinct notes reported) pairs",
             "assumptions": COMMON + ["candidate notes 0..131 (octave 10 complete)", "NaN may be treated as either end of the range"]},
     "C09": {"rule": QUANT_RULE, "assumptions": COMMON + ["outside the window the expected result is what a fresh instance of the real quantizer with the same scale reports (the history-free rule itself is judged by C08)", "inputs within 2 uV of a window edge may go either way"]},
     "C19": {"rule": QUANT_RULE, "assumptions": COMMON + ["'two f32 ulps' is taken at the magnitude of the largest of |input|, |stairstep|, |fraction|", "chromatic fraction range widened by 10 uV (integer microvolt note grid)"]},
     "C13": {"rule": GLIDE_RULE, "assumptions": COMMON + ["filter resolution res = 2*2^-23*M/(1-a) (M = largest |input| so far, a = pole of the time in effect), plus the decaying remainder of the previous setting's resolution after a set_time change", "for times below 100 samples the pole is only assumed to lie in [0, a(100/fs)]", "'settles' is decided as bounded progress: |e_n| <= |e_1|*a'^(n-1) + res with a' 2 % slower than the RC law", "the first sample of a hold is exempt from the monotone clause (it still carries the previous input)", "every history starts with a set_time call; requests within 1e-6 of the dead-band edge make the time in effect unknown until a far jump"]},
     "C14": {"rule": GLIDE_RULE, "assumptions": COMMON + ["the pole is estimated over a window in which the error decays by about 30 % and stays > 1000 res; dead-band discrimination only where t <= 1 s and 100 <= t*fs <= 1e5", "t > 10 s is compared bit for bit with t = 10 s on twin processors"]},
-    "C15": {"rule": RIBBON_RULE, "assumptions": COMMON + ["required run length L = capacity + max(floor(fs*1ms)-1, 0) (the value the repository's unit tests pin at 10 kHz: 179 no press, 180 press)", "generated samples keep 2e-5 away from the in-range boundary, except samples placed exactly on it where the f32 and the real-number reading agree that they are out of range", "'supported sample rates' = integer rates for which sample_rate_to_capacity() does not overflow (up to 286 kHz); 592 of them are instantiated"]},
+    "C15": {"rule": RIBBON_RULE, "assumptions": COMMON + ["required run length L = capacity + max(floor(fs*1ms)-1, 0) (the value the repository's unit tests pin at 10 kHz: 179 no press, 180 press)", "generated samples keep 2e-5 away from the in-range boundary, except samples placed exactly on it (out of range) or 1-3 f32 ulps below it (in range) where the f32 and the real-number reading of the boundary agree", "'supported sample rates' = integer rates for which sample_rate_to_capacity() does not overflow (up to 286 kHz); 592 of them are instantiated"]},
     "C16": {"rule": RIBBON_RULE + "; influence probes: twin controllers fed identical two-press histories except one sample raised by 0.25*boundary, per region {earlier press, pre-window, window, discarded tail, settling}", "assumptions": COMMON + ["mean tolerance 4*capacity*2^-24 + 2 ulp (sequential f32 summation); exact window membership is decided by the influence probes (bit-identical / strictly larger)"]},
     "C17": {"rule": "union of the hostile generators of all six modules with every API call inside catch_unwind in a build with overflow-checks and debug-assertions on (crate and dependencies), an argument fuzzer over the documented ranges (any f32 bit pattern where the property allows it), and bounded-progress hang detection for the ADSR; Miri runs the reduced workloads (--tier small). distinct_nontrivial = distinct observation classes of all module monitors + (module, non-finite-argument count, sample-rate decade) of the argument fuzzer",
             "assumptions": COMMON + ["hangs are decided on logical steps (C02 duration bound), wall-clock watchdogs only yield 'inconclusive'", "Miri findings count as violations; Miri cannot run the large sweeps"]},
-    "C20": {"rule": "all 2^32 f32 bit patterns through both conversions, all 256 u8 note arguments (allow/forbid/is_allowed/u8::from) and all 256 channel arguments (note-on heard on min(c,15) only), and twin envelopes configured with an out-of-range value vs. its bound driven by the same gate script (outputs compared bit for bit). distinct_nontrivial = 1024 f32 chunks (sign x exponent ranges) + differential classes",
+    "C20": {"rule": "all 2^32 f32 bit patterns through both conversions, re-conversion of every read-back (idempotence, PartialEq of the newtypes), all 256 u8 note arguments (allow/forbid/is_allowed/u8::from, forbid-everything with the raw value last, twin quantizers edited through n and min(n,11)) and all 256 channel arguments (note-on heard on min(c,15) only), and twin envelopes configured with an out-of-range value vs. its bound driven by the same gate script (outputs compared bit for bit). distinct_nontrivial = 1024 f32 chunks (sign x exponent ranges) + differential classes",
             "assumptions": COMMON + ["the bounds are the property's numbers 0.001, 20, 0, 1 (not the crate's constants)", "-0.0 is accepted as 0"]},
 })
 
